@@ -1331,7 +1331,10 @@ class C19(Prop):
 
     def run_cli(self, job, home):
         env = dict(os.environ, HOME=home, PYTHONHASHSEED="0", COLUMNS="200", NO_COLOR="1")
-        p = subprocess.run([sys.executable, "-c", CLI_RUNNER % {"repo": common.REPO}], input=json.dumps(job).encode(), stdout=subprocess.PIPE, stderr=subprocess.PIPE, env=env, timeout=120)
+        try:
+            p = subprocess.run([sys.executable, "-c", CLI_RUNNER % {"repo": common.REPO}], input=json.dumps(job).encode(), stdout=subprocess.PIPE, stderr=subprocess.PIPE, env=env, timeout=120)
+        except subprocess.TimeoutExpired:
+            return {"raised": "Timeout: the CLI invocation did not finish within 120 s"}
         try:
             return json.loads(p.stdout.decode().strip().split("\n")[-1])
         except Exception:
@@ -1507,6 +1510,9 @@ class C20(Prop):
             r = rsub(rng)
             names = r.sample(pool, r.randint(1, 6))
             lines = ["VAR %s %d" % (nm, 100 + k) for k, nm in enumerate(names)]
+            if r.random() < 0.25:
+                # the same definitions written as one VAR with an argument group
+                lines = ["VAR"] + ["    %s %d" % (nm, 100 + k) for k, nm in enumerate(names)]
             target = r.choice(names)
             val = 100 + names.index(target)
             form = r.randrange(4)
